@@ -41,7 +41,8 @@
 EXTENDS Naturals, Sequences, FiniteSets, TLC
 
 CONSTANTS Jids,       \* contacts (bare JIDs) that may appear in rosters
-          MaxVer,     \* item versions 1..MaxVer (name/subscription/groups differ); 0 = absent / remove
+          Items,      \* the roster items the server may send: records over every field of QXmppRosterIq::Item
+                      \* (ItemsTwo / ItemsThree / ItemsFields below, chosen in the configuration)
           Ress,       \* resources a contact may be online with
           Froms,      \* sender classes used for pushes
           ConnKinds,  \* subset of {"plain","sm","smr","resumed"}
@@ -53,7 +54,7 @@ VARIABLES sess,       \* "None" | "New" | "Resumed": what streamManagementState(
           smOn,       \* C2sStreamManager::m_enabled (kept after the stream closed, reset on stream start)
           canRes,     \* C2sStreamManager::m_canResume
           resumable,  \* ghost: the session that just ended may be resumed by the next Connect
-          view,       \* d->entries       : [Jids -> 0..MaxVer]
+          view,       \* d->entries       : [Jids -> Items \cup {Absent}]
           received,   \* d->isRosterReceived
           pres,       \* d->presences     : [Jids -> SUBSET Ress]
           reqs,       \* roster requests outstanding in the OutgoingIqManager
@@ -72,25 +73,44 @@ Class(f)  == IF f \in MustFroms THEN "must" ELSE IF f \in MayFroms THEN "may" EL
 \* what the code is written to do: bare(from) = own bare JID, or no from
 CodeAccepts(f) == f \in {"absent", "ownBare", "ownFull", "ownOther"}
 
-Empty  == [j \in Jids |-> 0]
+(* A roster item is a record over all fields QXmppRosterIq::Item parses and serialises              *)
+(* (src/base/QXmppRosterIq.cpp): x present, n name, s subscription, a ask (subscriptionStatus),      *)
+(* ap approved (pre-approval), g groups (sorted sequence), mx MIX channel annotation, p MIX           *)
+(* participant-id.  The view is compared field by field with what getRosterEntry() returns.          *)
+Absent == [x |-> 0, n |-> "", s |-> "", a |-> "", ap |-> FALSE, g |-> <<>>, mx |-> FALSE, p |-> ""]
+Base   == [x |-> 1, n |-> "n1", s |-> "both", a |-> "", ap |-> FALSE, g |-> <<"g1">>, mx |-> FALSE, p |-> ""]
+Several == [Base EXCEPT !.n = "n2", !.s = "to", !.g = <<"g2">>]
+MixBase == [Base EXCEPT !.mx = TRUE]
+\* every item that differs from Base in exactly one field, and one that differs from MixBase only in the
+\* participant-id (which exists only on a MIX channel item)
+OneField == {[Base EXCEPT !.n = "n2"], [Base EXCEPT !.s = "to"], [Base EXCEPT !.a = "subscribe"],
+             [Base EXCEPT !.ap = TRUE], [Base EXCEPT !.g = <<"g1", "g2">>], MixBase, [MixBase EXCEPT !.p = "p1"]}
+ItemsOne    == {Base}
+ItemsTwo    == {Base, Several}
+ItemsThree  == {Base, Several, [Base EXCEPT !.n = "n3", !.s = "from", !.g = <<>>, !.ap = TRUE]}
+ItemsFields == {Base, Several} \cup OneField
+                \cup {[x |-> 1, n |-> "n2", s |-> "none", a |-> "subscribe", ap |-> TRUE, g |-> <<>>, mx |-> TRUE, p |-> "p2"]}
+FieldsOf == {"n", "s", "a", "ap", "g", "mx", "p"}
+Diff(i1, i2) == {f \in FieldsOf : i1[f] # i2[f]}          \* the fields in which two items differ
+Empty  == [j \in Jids |-> Absent]
 NoPres == [j \in Jids |-> {}]
 NoLast == [j \in Jids |-> [r \in Ress |-> "none"]]
-Rosters == [Jids -> 0..MaxVer]
-ItemOps == [j : Jids, v : 0..MaxVer]
+Rosters == [Jids -> Items \cup {Absent}]
+ItemOps == [j : Jids, it : Items \cup {Absent}]
 PushItems == UNION {[1..n -> ItemOps] : n \in 1..MaxItems}
 Out0 == [a |-> "Init", cls |-> "", ack |-> 0, sig |-> <<>>, req |-> 0]
 
-(* items of a push are applied in order: v = 0 removes, v > 0 inserts/replaces *)
+(* items of a push are applied in order: Absent (subscription='remove') removes, any other item inserts / replaces whole *)
 RECURSIVE ApplyAll(_, _)
-ApplyAll(f, s) == IF s = <<>> THEN f ELSE ApplyAll([f EXCEPT ![Head(s).j] = Head(s).v], Tail(s))
+ApplyAll(f, s) == IF s = <<>> THEN f ELSE ApplyAll([f EXCEPT ![Head(s).j] = Head(s).it], Tail(s))
 
 RECURSIVE Signals(_, _)
 Signals(f, s) ==
     IF s = <<>> THEN <<>>
     ELSE LET it == Head(s)
-             sg == IF it.v = 0 THEN (IF f[it.j] # 0 THEN <<"removed:" \o it.j>> ELSE <<>>)
-                   ELSE IF f[it.j] = 0 THEN <<"added:" \o it.j>> ELSE <<"changed:" \o it.j>>
-         IN sg \o Signals([f EXCEPT ![it.j] = it.v], Tail(s))
+             sg == IF it.it.x = 0 THEN (IF f[it.j].x # 0 THEN <<"removed:" \o it.j>> ELSE <<>>)
+                   ELSE IF f[it.j].x = 0 THEN <<"added:" \o it.j>> ELSE <<"changed:" \o it.j>>
+         IN sg \o Signals([f EXCEPT ![it.j] = it.it], Tail(s))
 
 Init ==
     /\ sess = "None" /\ smOn = FALSE /\ canRes = FALSE /\ resumable = FALSE
@@ -192,7 +212,7 @@ Spec == Init /\ [][Next]_vars
 (* --- properties (C12) ---------------------------------------------------- *)
 \* written over plain values so that RosterTrace evaluates the same predicates
 \* on what the implementation reported
-Sub(v, rf) == \A j \in DOMAIN v : v[j] # 0 => (j \in DOMAIN rf /\ v[j] = rf[j])
+Sub(v, rf) == \A j \in DOMAIN v : v[j].x # 0 => (j \in DOMAIN rf /\ v[j] = rf[j])
 \* the session (or its resumable suspension) exists: the view is the reference view; before the
 \* first full roster of the session only pushes of this session may be visible
 P_View(live, valid, v, rf) == live => IF valid THEN v = rf ELSE Sub(v, rf)
@@ -202,7 +222,7 @@ P_Pres(live, p, l, js) == live => \A j \in js : p[j] = Avail(l, j)
 \* an unauthorised push changes nothing and is not acknowledged
 P_Unauth(cls, v0, v1, ack, sig) == cls = "not" => (v1 = v0 /\ ack = 0 /\ sig = <<>>)
 \* a session that is not a resumption starts from nothing
-P_Fresh(k, v, p) == k # "resumed" => (\A j \in DOMAIN v : v[j] = 0) /\ (\A j \in DOMAIN p : p[j] = {})
+P_Fresh(k, v, p) == k # "resumed" => (\A j \in DOMAIN v : v[j].x = 0) /\ (\A j \in DOMAIN p : p[j] = {})
 
 Live == sess # "None" \/ resumable
 
